@@ -7,6 +7,9 @@ fn main() {
     quiet_panics();
     let want_shadow = args.u64("shadow", 1) == 1 && !cfg!(miri);
     shadow::enable(want_shadow);
+    if want_shadow {
+        install_crash_reporter();
+    }
     let code = match args.engine.as_str() {
         "noop" => 0,
         "shapes" => engine_shapes(&args),
